@@ -34,9 +34,17 @@ RAW = bytes([1, 2, 3, 4, 2, 65, 66, 7, 8])
 FORGED = 1_600_000_000
 
 
+def vdef(variant):
+    """(conf, body, prelude) of a named variant or of a declaration given in full ('custom:' + JSON {conf, body})"""
+    if variant.startswith('custom:'):
+        d = json.loads(variant[7:])
+        return d.get('conf', '{}'), d['body'], d.get('prelude', '')
+    v = VARIANTS[variant]
+    return v[0], v[1], (v[2] if len(v) > 2 else '')
+
+
 def source(variant, clsname='P'):
-    conf, body = VARIANTS[variant][:2]
-    prelude = VARIANTS[variant][2] if len(VARIANTS[variant]) > 2 else ''
+    conf, body, prelude = vdef(variant)
     return ("from bisturi.packet import Packet\nfrom bisturi.field import Int, Data\n" + prelude +
             f"class {clsname}(Packet):\n    __bisturi__ = {conf}\n    {body}\n")
 
@@ -169,13 +177,13 @@ def define(d, variant, k):
 
 def reference(d, variant, k):
     """the same declaration under another class and module name, with code generation off: no cache involved"""
-    conf, body = VARIANTS[variant][:2]
-    prelude = VARIANTS[variant][2] if len(VARIANTS[variant]) > 2 else ''
-    path = os.path.join(d, 'ref_%s_%d.py' % (variant, os.getpid()))
+    conf, body, prelude = vdef(variant)
+    tag = hashlib.sha1(variant.encode()).hexdigest()[:10]
+    path = os.path.join(d, 'ref_%s_%d.py' % (tag, os.getpid()))
     with builtins.open(path, 'w') as f:
         f.write("from bisturi.packet import Packet\nfrom bisturi.field import Int, Data\n" + prelude +
                 f"class R(Packet):\n    __bisturi__ = dict({conf}, generate_for_pack=False, generate_for_unpack=False)\n    {body}\n")
-    spec = importlib.util.spec_from_file_location('ref_%s' % variant, path)
+    spec = importlib.util.spec_from_file_location('ref_%s' % tag, path)
     mod = importlib.util.module_from_spec(spec)
     spec.loader.exec_module(mod)
     return mod.R
@@ -197,6 +205,21 @@ def main():
     sys.path.insert(0, d)
     gate = Gate(cfg)
     install(gate, cfg)
+    if cfg.get('mode') == 'cookies':
+        # survey: define each declaration in turn (same class, same module: each rewrites the cache file) and report the value the
+        # generated module carries in its *COOKIE* constant together with a digest of the rest of the module
+        import re as _re
+        res = []
+        for k, variant in enumerate(cfg['variants']):
+            try:
+                define(d, variant, k)
+                text = builtins.open(os.path.join(d, '__pkts__', 'm_P.py')).read()
+                m = _re.search(r"(?m)^(\w*COOKIE\w*) = '([^']*)'\s*$", text)
+                res.append([m.group(2) if m else None, hashlib.sha1(_re.sub(r"(?m)^\w*COOKIE\w* = '[^']*'\s*$", '', text).encode()).hexdigest()])
+            except BaseException as e:
+                res.append([None, 'EXC:' + type(e).__name__])
+        json.dump({'cookies': res}, builtins.open(sys.argv[2], 'w'))
+        return
     out = {'steps': []}
     for k, step in enumerate(cfg['steps']):
         cfg['forge_next'] = step.get('forge_mtime')
